@@ -22,6 +22,16 @@ func normalize(obj any) (any, error) {
 	case json.Number:
 		return normalizeNumber(obj2)
 
+	case int64:
+		// TOML integers and large YAML integers decode as int64; JSON ones
+		// as int. Use one representation so comparisons between layers of
+		// different formats see equal values as equal.
+		if obj2 == int64(int(obj2)) {
+			return int(obj2), nil
+		}
+
+		return obj2, nil
+
 	default:
 		return obj2, nil
 	}
